@@ -47,7 +47,7 @@ package config
 // bytes or validated configuration. Preconditions are admitted only where a
 // validation rule enforces them.
 
-//@ contract config.GetKeyFields props C28
+//@ contract config.GetKeyFields props C28 function
 //@   modifies nothing
 
 //@ contract config.ConfigHashMetrics props C28
@@ -87,7 +87,9 @@ package config
 //@   ensures[acceptable-change-is-applied] loadN() == old(loadN()) + 1 && cfg != nil && toInt(loadedCfg()) == toInt(cfg) && (old(f.mainHash) != cfg.mainHash || old(f.rulesHash) != cfg.rulesHash) ==> f.mainHash == cfg.mainHash && f.rulesHash == cfg.rulesHash && f.mainConfig == cfg.mainConfig && f.rulesConfig == cfg.rulesConfig && callsOf(ConfigReloadCallback) == old(callsOf(ConfigReloadCallback)) + len(f.callbacks)
 //@   ensures[rejected-or-unchanged-leaves-everything] !(loadN() == old(loadN()) + 1 && cfg != nil && toInt(loadedCfg()) == toInt(cfg) && (old(f.mainHash) != cfg.mainHash || old(f.rulesHash) != cfg.rulesHash)) ==> callsOf(ConfigReloadCallback) == old(callsOf(ConfigReloadCallback)) && f.mainHash == old(f.mainHash) && f.rulesHash == old(f.rulesHash) && f.mainConfig == old(f.mainConfig) && f.rulesConfig == old(f.rulesConfig)
 //@   loop 1 invariant callsOf(ConfigReloadCallback) == old(callsOf(ConfigReloadCallback))
-//@   loop 2 invariant callsOf(ConfigReloadCallback) == old(callsOf(ConfigReloadCallback)) + iter
+//@   loop 2 invariant[calls] callsOf(ConfigReloadCallback) == old(callsOf(ConfigReloadCallback)) + iter
+//@   loop 2 invariant[copy] len(callbacks) == len(f.callbacks)
+//@   loop 2 invariant[applied] f.mainHash == cfg.mainHash && f.rulesHash == cfg.rulesHash && f.mainConfig == cfg.mainConfig && f.rulesConfig == cfg.rulesConfig
 //@   modifies all(fnCallsT), loadN(), loadedCfg(), f.mainConfig, f.mainHash, f.rulesConfig, f.rulesHash
 
 // Reading and parsing the files, and building a new fileConfig from them, allocate new
@@ -100,3 +102,40 @@ package config
 // ---- accessors used by the collector (C03)
 //@ contract config.TracesConfig.GetSendDelay inline
 //@ contract config.TracesConfig.GetTraceTimeout inline
+
+// ---- C35: lock discipline of the live configuration. Reload swaps mainConfig / rulesConfig (and their
+// hashes, the load time, the callback list) under mux while every getter reads them concurrently: each
+// method of fileConfig must hold mux (write-held for writes) at every access to these fields, must not
+// hold it on entry and must have released it on every return path.
+//@ guarded_by config.fileConfig.mux: mainConfig, mainHash, rulesConfig, rulesHash, callbacks, lastLoadTime
+//@ lockdiscipline config.fileConfig mux props C35
+
+// ---- C14: which sampler definition a trace gets. The selector is the environment for environment-scoped
+// keys and the (optionally prefixed) dataset for classic keys; the definition is the one configured under
+// that name, else the one under __default__; the fields extracted at ingestion come from the same definition.
+//@ spec samplerSelector(prefix string, apiKey string, env string, dataset string) string := ite(!IsLegacyAPIKey(apiKey), env, ite(prefix != "", prefix + "." + dataset, dataset))
+//@ spec chosen(m map[string]*V2SamplerChoice, name string) *V2SamplerChoice := ite(in(m, name), m[name], ite(in(m, "__default__"), m["__default__"], nil))
+//@ assume config.(*V2SamplerChoice).Sampler getter
+//@ assume config.(*V2SamplerChoice).GetSamplingFields getter
+//@ contract config.(*fileConfig).GetDatasetPrefix props C14 function
+//@   requires[config-loaded@C14] f != nil && f.mainConfig != nil
+//@   ensures result == f.mainConfig.General.DatasetPrefix
+//@   modifies nothing
+//@ contract config.(*fileConfig).DetermineSamplerKey props C14
+//@   requires[config-loaded@C14] f != nil && f.mainConfig != nil
+//@   ensures[selector] result == samplerSelector(f.mainConfig.General.DatasetPrefix, apiKey, env, dataset)
+//@   modifies nothing
+//@ contract config.(*fileConfig).GetSamplerConfigForDestName props C14
+//@   requires[rules-loaded@C14] f != nil && f.rulesConfig != nil
+//@   requires[definitions-present@C14] forall k string :: in(f.rulesConfig.Samplers, k) ==> f.rulesConfig.Samplers[k] != nil
+//@   let c = chosen(f.rulesConfig.Samplers, destname)
+//@   ensures[named-definition-else-default] c != nil ==> result0 == result0of(c.Sampler()) && result1 == result1of(c.Sampler())
+//@   ensures[nothing-configured] c == nil ==> isNil(result0) && result1 == "not found"
+//@   modifies nothing
+//@ contract config.(*fileConfig).GetSamplingKeyFieldsForDestName props C14
+//@   requires[rules-loaded@C14] f != nil && f.rulesConfig != nil
+//@   requires[definitions-present@C14] forall k string :: in(f.rulesConfig.Samplers, k) ==> f.rulesConfig.Samplers[k] != nil
+//@   let c = chosen(f.rulesConfig.Samplers, samplerKey)
+//@   ensures[fields-of-the-same-definition] c != nil ==> result == c.GetSamplingFields()
+//@   ensures[nothing-configured] c == nil ==> len(result) == 0
+//@   modifies nothing
